@@ -22,7 +22,8 @@ Mirrors, branch by branch,
 Composition. Text → tokens is `Lex.tokens`, tokens → statements `Parse.all`, expression evaluation
 `Simp.evaluateT` (= `evaluate` plus the tree it leaves behind), operand conversion `Front.assemble`, bytes of an
 instruction `Codec.encodeInto 4` (through the parameter `enc`, see `encoder`), the output regions `Seg`
-(`Seg.State`, `Seg.changeSegment`, `Seg.closeSegment`, `Seg.step` with `append/align/place/rewrite`) on top of `Map`.
+(`Seg.State`, `Seg.closeSegment`, `Seg.step` with `select/append/place/rewrite`; `.align` is an `append` of the
+padding computed from the unsaturated cursor, as the code is after fix 9bfedb8) on top of `Map`.
 The constant tables are association lists (`Table`).
 
 Abstractions (each is the removal of something no code path can observe):
@@ -743,16 +744,23 @@ def alignDirective (env : Env) (st : St) (line col : Nat) (args : List Arg) : Ou
       match evalStrict "align" env st line col a with
       | .ok (.error r) => .ok r
       | .ok (.ok a') =>
-        if st.seg.active.isNone then .stop .panic else      -- `ctx.active_mut().unwrap()`
-        match a' with
-        | .const v =>
-          if 0 < v ∧ v ≤ 4294967295 then
-            match segStep st.seg (.align v.toNat) with
-            | .ok (s', .diag e) => .ok (({ st with seg := s' }).push env line col (.dirApply "align" (.alignWrite e)), .err .fatal)
-            | .ok (s', _) => .ok ({ st with seg := s' }, .ok)
-            | .stop r => .stop r
-          else .ok (st.push env line col (.dirApply "align" (.alignRange v)), .err .fatal)
-        | _ => .ok (st.push env line col (.dirArgType "align" 0 .const a'.ty), .err .trivial)
+        match st.seg.active with
+        | none => .stop .panic                              -- `ctx.active_mut().unwrap()`
+        | some seg =>
+          match a' with
+          | .const v =>
+            if 0 < v ∧ v ≤ 4294967295 then
+              -- the cursor as a 64-bit value (`base_addr + len()`, not the saturating `curr_addr`)
+              let off := (seg.base + seg.buf.length) % v.toNat
+              if off = 0 then .ok (st, .ok)
+              else
+                -- `has_remaining(new_len)` and the 256-byte chunk loop: one append of the padding
+                match segStep st.seg (.append (List.replicate (v.toNat - off) 0xBE)) with
+                | .ok (s', .diag e) => .ok (({ st with seg := s' }).push env line col (.dirApply "align" (.alignWrite e)), .err .fatal)
+                | .ok (s', _) => .ok ({ st with seg := s' }, .ok)
+                | .stop r => .stop r
+            else .ok (st.push env line col (.dirApply "align" (.alignRange v)), .err .fatal)
+          | _ => .ok (st.push env line col (.dirArgType "align" 0 .const a'.ty), .err .trivial)
       | .stop r => .stop r
     | _ => .stop .panic
 
